@@ -15,6 +15,7 @@ are false of the pinned source (namespace `Neg`): they are proved
     hypothesis that excludes the failing region (`Op.restoreOrderedAt`, `Op.freshOkAt`).
 -/
 import LinVerif.Lemmas.C06Conc
+import LinVerif.Lemmas.C06WriteThrough
 import LinVerif.Model.FanOutPark
 import LinVerif.Generated.C06
 
@@ -307,6 +308,51 @@ theorem reopen_keeps_live_groups (v : Variant) (ops : List Op) (h : NoReset v op
     (hl : lookup (run v State.init ops).live g = some grp) :
     (lookup (step v (run v State.init ops) .reopen).1.live g).isSome = true := by
   rw [reopen_restores_all_groups, (base_of_noReset h).grp g grp hl]; rfl
+
+/-- (6) WITH explicit resets: along EVERY history — SetSeq, FanOutQueue.SetAppendedSeq forwards and
+backwards, SetConsumedSeq anywhere — every position is on its meta page (the reset is exempt from
+the ordering clause, not from persistence): the queue's positions survive reopen unchanged, and
+every live group comes back as `NewConsumerGroup` applied to exactly the positions it had (which
+is the identity whenever queue ack ≤ ack ≤ consumed, `newGroup_some_id`). -/
+theorem persist_with_resets (v : Variant) (ops : List Op) :
+    let s := run v State.init ops
+    (step v s .reopen).1.q.appended = s.q.appended ∧ (step v s .reopen).1.q.ack = s.q.ack ∧
+    (∀ g grp, lookup s.live g = some grp →
+      lookup s.metas g = some { consumed := grp.consumed, ack := grp.ack } ∧
+      lookup (step v s .reopen).1.live g =
+        some (newGroup v s.q.ack (some { consumed := grp.consumed, ack := grp.ack })).toGroup) := by
+  intro s
+  have h : WT s := WT.run v ops _ WT.init
+  have hm := reopen_m s.q
+  refine ⟨by show s.q.reopen.appended = _; rw [hm.2.2.1]; exact h.qApp,
+    by show s.q.reopen.ack = _; rw [hm.2.2.2]; exact h.qAck, ?_⟩
+  intro g grp hl
+  exact ⟨h.grp g grp hl, reopen_group_of_wt v s h g grp hl⟩
+
+/-- in particular a group that `FanOutQueue.SetAppendedSeq n` has just reset comes back as (n, n) -/
+theorem persist_after_index_reset (v : Variant) (ops : List Op) (n : Int) (g : Nat) (grp : Group)
+    (hl : lookup (run v State.init (ops ++ [.setAppended n])).live g = some grp) :
+    lookup (step v (run v State.init (ops ++ [.setAppended n])) .reopen).1.live g =
+      some { consumed := n, ack := n, paused := false } := by
+  have hp := (persist_with_resets v (ops ++ [.setAppended n])).2.2 g grp hl
+  rw [run_append] at hl hp ⊢
+  have hl' := lookup_map_val (fun _ (x : Group) => ({ x with consumed := n, ack := n } : Group))
+    (run v State.init ops).live g
+  have hl2 : lookup ((run v State.init ops).setAppended n).live g =
+      (lookup (run v State.init ops).live g).map (fun x => ({ x with consumed := n, ack := n } : Group)) := hl'
+  have hgrp : grp.consumed = n ∧ grp.ack = n := by
+    change lookup ((run v State.init ops).setAppended n).live g = some grp at hl
+    rw [hl2] at hl
+    cases hh : lookup (run v State.init ops).live g with
+    | none => rw [hh] at hl; cases hl
+    | some g0 =>
+      rw [hh] at hl
+      simp only [Option.map_some, Option.some.injEq] at hl
+      subst hl; exact ⟨rfl, rfl⟩
+  rw [hp.2, hgrp.1, hgrp.2]
+  have hq : (run v (run v State.init ops) [Op.setAppended n]).q.ack = n := rfl
+  rw [hq, newGroup_some_id v n _ (Int.le_refl _) (Int.le_refl _)]
+  rfl
 
 /-- (6) the meta pages always hold the in-memory positions (write-through), so nothing depends on
 a clean close: every variant, every history without reset. -/
